@@ -1155,13 +1155,29 @@ func c09StatusAndTrailers(c *Ctx) {
 	if fl := c.Fn("C09.O14", "(*nbhttp.Response).flush"); fl != nil {
 		fi := c.P.Info(fl)
 		ok := false
+		first := ""
 		for _, cs := range c.P.Calls(fl, func(name string, _ ir.CallSite) bool { return strings.HasSuffix(name, "Header).Get") }) {
 			if fi.InLoop(cs.In) && c.P.LoadedField(ir.Resolve(cs.Common.Args[0])) == "nbhttp.Response.header" {
 				ok = true
+				first = c.Pos(cs.In)
 			}
 		}
-		c.Cond(ok, "C09.O14", fnKey(c.P, fl, "trailer values read at flush time"), c.FnPos(fl), "Header.Get inside the trailer loop",
+		// every value: the emitted value is an element of header[name], in a loop of its own
+		all := false
+		for _, cs := range c.P.CallsNamed(fl, "mempool.AppendString") {
+			if len(cs.Common.Args) == 2 && fi.InLoop(cs.In) {
+				if u, isU := ir.Resolve(cs.Common.Args[1]).(*ssa.UnOp); isU && isTrailerValue(c, u, 0) {
+					all = true
+					ok = true
+				}
+			}
+		}
+		c.Cond(ok, "C09.O14", fnKey(c.P, fl, "trailer values read at flush time"), c.FnPos(fl), "the header is read inside the trailer loop",
 			"flush emits the trailer values that were captured when the head was encoded (at the first Write): a trailer set after the body, which is what trailers are for, goes out empty")
+		if ok {
+			c.Cond(all, "C09.O14", fnKey(c.P, fl, "every value of a trailer is sent"), c.FnPos(fl), "the emitted value is an element of header[name]",
+				"flush takes a trailer's value with Header.Get ("+first+"), which returns the first value only: a trailer the handler gave several values (Header().Add twice) reaches the client with one")
+		}
 	}
 }
 
@@ -1186,6 +1202,32 @@ func isTrailerValue(c *Ctx, v ssa.Value, depth int) bool {
 			}
 		}
 		return len(x.Edges) > 0
+	case *ssa.UnOp:
+		// an element of the field's value list, header[name]
+		if x.Op == token.MUL {
+			if ia, ok := x.X.(*ssa.IndexAddr); ok {
+				return valuesOfHeaderField(c, ia.X, 0)
+			}
+		}
+	}
+	return false
+}
+
+// valuesOfHeaderField: v is Response.header[k] (possibly joined by a phi with a
+// fallback list).
+func valuesOfHeaderField(c *Ctx, v ssa.Value, depth int) bool {
+	if depth > 4 {
+		return false
+	}
+	switch x := ir.Resolve(v).(type) {
+	case *ssa.Lookup:
+		return c.P.LoadedField(ir.Resolve(x.X)) == "nbhttp.Response.header"
+	case *ssa.Phi:
+		for _, e := range x.Edges {
+			if valuesOfHeaderField(c, e, depth+1) {
+				return true
+			}
+		}
 	}
 	return false
 }
